@@ -34,6 +34,7 @@ type CatAsset struct {
 	Kind    string `json:"kind"`              // raw | tar.gz | zip | checksums | other
 	Payload string `json:"payload,omitempty"` // bytes of the executable inside (unique per asset)
 	Corrupt bool   `json:"corrupt,omitempty"` // archive bytes are garbage
+	NoExe   bool   `json:"no_exe,omitempty"`  // a well-formed archive that does not contain the executable
 	// Checksums (kind = checksums): what the file records
 	Sums string `json:"sums,omitempty"`
 	// ServeFlipped: the bytes served differ in one bit from the bytes the checksum file was computed from
@@ -74,8 +75,10 @@ func buildArchive(a *CatAsset, exeName string) []byte {
 		readme := []byte("readme")
 		_ = tw.WriteHeader(&tar.Header{Name: "README.md", Mode: 0o644, Size: int64(len(readme))})
 		_, _ = tw.Write(readme)
-		_ = tw.WriteHeader(&tar.Header{Name: exeName, Mode: 0o755, Size: int64(len(a.Payload))})
-		_, _ = tw.Write([]byte(a.Payload))
+		if !a.NoExe {
+			_ = tw.WriteHeader(&tar.Header{Name: exeName, Mode: 0o755, Size: int64(len(a.Payload))})
+			_, _ = tw.Write([]byte(a.Payload))
+		}
 		_ = tw.Close()
 		_ = gz.Close()
 		return buf.Bytes()
@@ -235,6 +238,9 @@ func genC20(t *rapid.T, tier string) (*World, any) {
 				name += "." + kind
 			}
 			mine = mk(name, kind)
+			if kind == "tar.gz" && chance(t, 10, "noexe") {
+				mine.NoExe = true // packaged incorrectly: nothing to install from it
+			}
 			if kind != "raw" && chance(t, 8, "corrupt") {
 				mine.Corrupt = true // for a raw binary every byte string is "the binary"; only archives can be corrupt
 			}
@@ -541,7 +547,7 @@ func evalC20(sc *Scenario, sim *Sim) ([]Violation, bool, string) {
 					recorded = true
 				}
 			}
-			if recorded && !a.Corrupt {
+			if recorded && !a.Corrupt && !a.NoExe {
 				if a.Kind == "raw" {
 					legit[string(received)] = cand{rel, a}
 				} else if bytes.Equal(received, buildArchive(a, "crs-toolchain")) {
